@@ -109,6 +109,13 @@ func extrasCmd(args []string) error {
 		sink.put(map[string]interface{}{"kind": "mdops", "ops": ops, "obs": obsv, "parse": parse})
 	}
 
+	// ---- 1b. icc.Version: every minor / bug-fix byte under a few majors ------------------
+	for _, major := range []int{0, 2, 4, 5, 9, 10, 255} {
+		for minor := 0; minor < 256; minor++ {
+			sink.put(map[string]interface{}{"kind": "version", "major": major, "minor": minor, "str": icc.Version{Major: byte(major), MinorAndRev: byte(minor)}.String()})
+		}
+	}
+
 	// ---- 2. enumerations ---------------------------------------------------------
 	known := map[string][]string{
 		"class":     {"scnr", "mntr", "prtr", "link", "spac", "abst", "nmcl"},
